@@ -274,7 +274,8 @@ LEVEL_TEXT = ("Proof: C14_queue_value_at_instant (after the last row of an insta
               "time-sorted permutation), C14_queue_nonneg (every row >= 0 when no activity starts before its launch call, launches ordered first inside an "
               "instant), C14_queue_ends_zero, C14_queue_row_count, C14_bw_value_at_instant, C14_bw_nonneg_at_instants, C14_counter_events_unshift. "
               "Correspondence on get_queue_length_time_series, get_memory_bw_time_series and the appended counter events of the *_with_counters file."
-              " C14_queue_resolution_independent: times multiplied by k > 0 give the same queue-length rows and counts at k times the instants (the bandwidth series is not homogeneous: 1 us floor).")
+              " C14_queue_resolution_independent: times multiplied by k > 0 give the same queue-length rows and counts at k times the instants (the bandwidth series is not homogeneous: 1 us floor)."
+              " C14_rules_follow_source: the +1 / -1 increments, the device-row test, the order inside one instant and the floor of a zero-length copy are read from the two per-rank builders of TraceCounters (strict shape) and are the model's.")
 LEVEL_NOTE = ("Hand model of TraceCounters (launch query, join on correlation, semi-join, sort, per-stream cumsum; bandwidth rows with the dur 0 -> 1 rule). IEEE "
               "summation in pandas is not modelled: bandwidths are generated as multiples of 1/4 so that sums are exact.")
 TECHNIQUE = "Coq proof (prefix sums over time-sorted +-1 rows, level function, pairing argument) + differential correspondence via vm_compute"
